@@ -117,6 +117,13 @@ def _selfcheck_enumeration():
     return bad
 
 
+def corpus_files():
+    """The repository's own .js test files and README snippets (the `corpus scripts` of the property), as collected by C13."""
+    from mc.props import c13
+    c = c13.layout_corpus()
+    return [c[k] for k in sorted(c) if k.startswith("file:") or k.startswith("readme:")]
+
+
 def corpus_programs():
     from mc.props import c05
     progs = []
@@ -127,7 +134,7 @@ def corpus_programs():
 
 def all_programs():
     seen, out = set(), []
-    for p in wide_programs() + enumeration_programs() + corpus_programs():
+    for p in wide_programs() + enumeration_programs() + corpus_files() + corpus_programs():
         if p not in seen:
             seen.add(p)
             out.append(p)
@@ -221,7 +228,7 @@ def spaces(tier, seed, all_strata=False):
     n = 64 if tier == "thorough" else 16
     out = [
         _sp("c15_seeds_%d" % n, "run_seeds", lambda: _seed_cases(n),
-            "every program of the closure corpus (C05 closure family + 93 wide programs with 3-5 parameters, locals, captured and "
+            "every program of the corpus (the repository's 34 .js test files and README snippets, 130 key-order programs, C05 closure family + 93 wide programs with 3-5 parameters, locals, captured and "
             "pass-through variables per level, named function expressions, arguments, catch parameters, for-in key order) evaluated "
             "in %d interpreters with PYTHONHASHSEED 0..%d: identical log, value and error class" % (n, n - 1), "%d seeds" % n),
         _sp("c15_selfcheck", "run_selfcheck", lambda: [("the 130 enumeration programs run to a value (non-vacuity of the key-order observations)", {})],
